@@ -409,9 +409,17 @@ fn write_transcript(pre: &Pre, out: &str) -> ([u8; TR], usize) {
 /// (With the terminal emulator as the sink of the real call the query ran out of
 /// 24 GB even for a constant line length and prompt.)
 fn show_cli_write_body(valid: usize, prompt: usize) {
+    show_cli_write_with(valid, prompt, None);
+}
+
+/// `fixed_out`: Some(k) pins the output text to OUTS[k] (quick tier)
+fn show_cli_write_with(valid: usize, prompt: usize, fixed_out: Option<usize>) {
     let pre = any_pre_fixed(valid, prompt);
     kani::assume(printable(&pre));
-    let which: usize = kani::any();
+    let which: usize = match fixed_out {
+        Some(k) => k,
+        None => kani::any(),
+    };
     kani::assume(which < 5);
     let out = OUTS[which];
     let (e, el) = write_transcript(&pre, out);
@@ -424,8 +432,15 @@ fn show_cli_write_body(valid: usize, prompt: usize) {
     assert!(t.ok(), "C06/C13: output, line break, prompt, line and cursor restoration, in this order");
     assert!(t.pending == 0, "C15: flushed");
     kani::cover!(valid < 1 || (pre.cursor < pre.count && which == 1), "cursor inside the line while writing");
-    kani::cover!(which == 0, "empty write");
-    kani::cover!(which == 4, "text after a line feed");
+    kani::cover!(fixed_out.is_some() || which == 0, "empty write");
+    kani::cover!(fixed_out.is_some() || which == 4, "text after a line feed");
+}
+
+/// Quick-tier instance: 2-byte line, prompt `$ `, output `x` (line bytes and cursor symbolic).
+#[kani::proof]
+#[kani::unwind(9)]
+fn show_cli_write_quick() {
+    show_cli_write_with(2, 1, Some(1));
 }
 
 /// Part 2: feeding `write_transcript` to the terminal from ANY terminal state shows
